@@ -1011,7 +1011,13 @@ namespace bluetoe {
 
         // if the ending handle points not on an existing attribute, the search will end at the next, lower handle
         if ( ending_index != details::invalid_attribute_index && handle_mapping::handle_by_index( ending_index ) != ending_handle )
+        {
+            // there is no attribute within the range, if the range is in front of the first attribute, or between two attributes
+            if ( ending_index == 0 || ending_index - 1 < start_index )
+                return error_response( *input, details::att_error_codes::attribute_not_found, starting_handle, output, out_size );
+
             --ending_index;
+        }
 
         std::uint8_t*        write_ptr = &output[ 0 ];
         std::uint8_t* const  write_end = write_ptr + out_size;
@@ -1547,9 +1553,9 @@ namespace bluetoe {
     template < class Iterator, class Filter >
     void server< Options... >::all_attributes( std::uint16_t starting_handle, std::uint16_t ending_handle, Iterator& iter, const Filter& filter )
     {
-        const std::size_t last_index = last_handle_index( ending_handle );
-
-        for ( std::size_t index = handle_mapping::first_index_by_handle( starting_handle ); index <= last_index; ++index )
+        // the ending handle might point into a gap between two attributes or behind the last attribute
+        for ( std::size_t index = handle_mapping::first_index_by_handle( starting_handle );
+            index < number_of_attributes && handle_mapping::handle_by_index( index ) <= ending_handle; ++index )
         {
             const details::attribute attr = attribute_at( index );
 
